@@ -236,40 +236,89 @@ func (s *sched) Left() int {
 	return l
 }
 
-// mkSchedule: a finite profile of (about) `tokens` tokens; the exact number is read from a twin's Left().
-func mkSchedule(kind string, tokens int) core.Schedule {
+// czParts: `cz:<p>.<p>…` — a composite given part by part: `<n>` = once(n) (n = 0: once(0) at even positions, a const
+// pause of 0 ops at odd ones), `<n>c` = a const part of n tokens, one per millisecond.
+func czParts(kind string) []core.Schedule {
+	var out []core.Schedule
+	for k, p := range strings.Split(strings.TrimPrefix(kind, "cz:"), ".") {
+		if strings.HasSuffix(p, "c") {
+			n := atoi(strings.TrimSuffix(p, "c"))
+			if n == 0 {
+				out = append(out, schedule.NewConst(0, time.Millisecond))
+			} else {
+				out = append(out, schedule.NewConst(1000, time.Duration(n)*time.Millisecond+time.Microsecond))
+			}
+			continue
+		}
+		n := atoi(p)
+		if n == 0 && k%2 == 1 {
+			out = append(out, schedule.NewConst(0, time.Millisecond))
+		} else {
+			out = append(out, schedule.NewOnce(int64(n)))
+		}
+	}
+	return out
+}
+
+// mkParts: the parts of a finite profile of (about) `tokens` tokens (one part = the leaf itself); nil = the kind is built
+// by a constructor of its own (step).
+func mkParts(kind string, tokens int) []core.Schedule {
 	f := float64(tokens)
 	switch {
+	case strings.HasPrefix(kind, "cz:"):
+		return czParts(kind)
 	case kind == "const": // tokens spread over 20 ms
 		if tokens == 0 {
-			return schedule.NewConst(0, 20*time.Millisecond)
+			return []core.Schedule{schedule.NewConst(0, 20*time.Millisecond)}
 		}
-		return schedule.NewConst(f*50+1, 20*time.Millisecond)
+		return []core.Schedule{schedule.NewConst(f*50+1, 20*time.Millisecond)}
 	case strings.HasPrefix(kind, "paced"): // paced<ms>: one token every <ms> milliseconds
 		ms := atoi(strings.TrimPrefix(kind, "paced"))
 		if ms <= 0 {
 			ms = 5
 		}
 		if tokens == 0 {
-			return schedule.NewConst(0, time.Millisecond)
+			return []core.Schedule{schedule.NewConst(0, time.Millisecond)}
 		}
-		return schedule.NewConst(1000/float64(ms), time.Duration(tokens*ms)*time.Millisecond+time.Microsecond)
+		return []core.Schedule{schedule.NewConst(1000/float64(ms), time.Duration(tokens*ms)*time.Millisecond+time.Microsecond)}
 	case kind == "comp":
 		a := tokens / 2
-		return schedule.NewComposite(schedule.NewOnce(int64(a)), schedule.NewConst(0, time.Millisecond), schedule.NewOnce(int64(tokens-a)))
+		return []core.Schedule{schedule.NewOnce(int64(a)), schedule.NewConst(0, time.Millisecond), schedule.NewOnce(int64(tokens - a))}
 	case kind == "line": // rising rate over 20 ms
-		return schedule.NewLine(f*10, f*90, 20*time.Millisecond)
-	case kind == "step": // two steps of 8 ms
-		if tokens == 0 {
-			return schedule.NewConst(0, time.Millisecond)
-		}
-		return schedule.NewStep(f*42, f*84, int64(tokens*42), 8*time.Millisecond)
+		return []core.Schedule{schedule.NewLine(f*10, f*90, 20*time.Millisecond)}
+	case kind == "step":
+		return nil
 	case kind == "comp2": // once + paced tail
 		a := tokens / 2
-		return schedule.NewComposite(schedule.NewOnce(int64(a)), schedule.NewConst(f*50+1, time.Duration(10*(tokens-a))*time.Millisecond/10))
+		return []core.Schedule{schedule.NewOnce(int64(a)), schedule.NewConst(f*50+1, time.Duration(10*(tokens-a))*time.Millisecond/10)}
 	default:
-		return schedule.NewOnce(int64(tokens))
+		return []core.Schedule{schedule.NewOnce(int64(tokens))}
 	}
+}
+
+// mkSchedule: a finite profile of (about) `tokens` tokens; the exact number is read from a twin's Left().
+func mkSchedule(kind string, tokens int) core.Schedule {
+	if ps := mkParts(kind, tokens); ps != nil {
+		return schedule.NewComposite(ps...) // one part: the part itself
+	}
+	// step: two steps of 8 ms
+	if tokens == 0 {
+		return schedule.NewConst(0, time.Millisecond)
+	}
+	return schedule.NewStep(float64(tokens)*42, float64(tokens)*84, int64(tokens*42), 8*time.Millisecond)
+}
+
+// partsLeft: the tokens of every part of the profile (Left() of fresh twins of the parts), "" = not known part by part.
+func partsLeft(kind string, tokens int) string {
+	ps := mkParts(kind, tokens)
+	if ps == nil {
+		return ""
+	}
+	out := make([]string, len(ps))
+	for k, p := range ps {
+		out[k] = itoa(p.Left())
+	}
+	return strings.Join(out, ",")
 }
 
 // startSched: the startup schedule behind a scheduling point (sctl): the goroutine that starts the instances parks before
